@@ -26,6 +26,10 @@ impl<'a> WireFormat<'a> for CERT<'a> {
     where
         Self: Sized,
     {
+        if data.len() < *position + 5 {
+            return Err(crate::SimpleDnsError::InsufficientData);
+        }
+
         let type_code = u16::from_be_bytes(data[*position..*position + 2].try_into()?);
         *position += 2;
         let key_tag = u16::from_be_bytes(data[*position..*position + 2].try_into()?);
